@@ -1794,52 +1794,58 @@ def t_cmp( ctx ):
         res.ok( src, eps, '_epsilon = 10**-_precision (_precision = %d)' % p )
     else:
         res.bad( src, eps, eps, 'comparison resolution must be 10**-_precision, the rendering resolution' )
-    # lt / gt primitives
-    lt = src.get( 'timestamp.__lt__' ); gt = src.get( 'timestamp.__gt__' )
-    EPS = ( 'self.__class__._epsilon', 'self._epsilon', 'timestamp._epsilon', 'type(self)._epsilon' )
+    # the six operators, decided by value: each one's returned expression evaluated on two stand-in timestamps whose values differ by
+    # -3 .. 3 with _epsilon = 2 ( calls and comparisons between the stand-ins evaluate the other operators' expressions the same way ).
+    # Specified: lt iff rhs - self > eps, gt iff self - rhs > eps, le = not gt, ge = not lt, eq iff within eps, ne = not eq
+    EPS = ( 'self.__class__._epsilon', 'self._epsilon', 'timestamp._epsilon', 'type(self)._epsilon', 'rhs._epsilon', 'rhs.__class__._epsilon' )
+    OPS = ( '__lt__', '__gt__', '__le__', '__ge__', '__eq__', '__ne__' )
     def ret( fn ):
         r = [ s for s in fn.body if isinstance( s, ast.Return ) ]
         if len( r ) != 1:
             raise AnalysisError( '%s: expected a single return' % fn.name )
         return r[0].value
-    def lt_ok( e ):
-        for ep in EPS:
-            if pmatch( e, 'self.value + %s < rhs.value' % ep ) or pmatch( e, 'self.value < rhs.value - %s' % ep ) \
-               or pmatch( e, 'rhs.value - self.value > %s' % ep ) or pmatch( e, 'rhs.value > self.value + %s' % ep ):
-                return True
-        return False
-    def gt_ok( e ):
-        for ep in EPS:
-            if pmatch( e, 'self.value - %s > rhs.value' % ep ) or pmatch( e, 'self.value > rhs.value + %s' % ep ) \
-               or pmatch( e, 'self.value - rhs.value > %s' % ep ) or pmatch( e, 'rhs.value + %s < self.value' % ep ) \
-               or pmatch( e, 'rhs.value < self.value - %s' % ep ):
-                return True
-        return False
-    if lt_ok( ret( lt )):
-        res.ok( src, lt, 'lt: ' + norm_text( ret( lt )))
-    else:
-        res.bad( src, lt, ret( lt ), '__lt__ must be self.value + _epsilon < rhs.value (values within _epsilon render equal and must compare equal)' )
-    if gt_ok( ret( gt )):
-        res.ok( src, gt, 'gt: ' + norm_text( ret( gt )))
-    else:
-        res.bad( src, gt, ret( gt ), '__gt__ must be self.value - _epsilon > rhs.value' )
-    derived = {
-        '__le__': ( 'not self.__gt__( rhs )', 'not self > rhs' ),
-        '__ge__': ( 'not self.__lt__( rhs )', 'not self < rhs' ),
-        '__ne__': ( 'self.__lt__( rhs ) or self.__gt__( rhs )', 'self.__gt__( rhs ) or self.__lt__( rhs )', 'self < rhs or self > rhs',
-                    'not self.__eq__( rhs )' ),
-        '__eq__': ( 'not self.__ne__( rhs )', 'not ( self.__lt__( rhs ) or self.__gt__( rhs ))', 'not self.__lt__( rhs ) and not self.__gt__( rhs )' ),
-    }
-    for name, pats in derived.items():
+    depth = [ 0 ]
+    def evalop( name, a, b ):
+        depth[0] += 1
+        try:
+            if depth[0] > 6:
+                raise NoFold( 'operators defined only in terms of each other' )
+            env = { 'self': _Stamp( a ), 'rhs': _Stamp( b ), 'self.value': a, 'rhs.value': b }
+            env.update(( ep, 2 ) for ep in EPS )
+            for o in OPS:
+                env['self.' + o] = ( lambda o_: lambda r: evalop( o_, a, r.value ))( o )
+                env['rhs.' + o] = ( lambda o_: lambda r: evalop( o_, b, r.value ))( o )
+            return bool( fold( ret( src.get( 'timestamp.' + name )), env ))
+        finally:
+            depth[0] -= 1
+    class _Stamp( object ):
+        def __init__( self, value ): self.value = value
+        def __lt__( self, o ): return evalop( '__lt__', self.value, o.value )
+        def __gt__( self, o ): return evalop( '__gt__', self.value, o.value )
+        def __le__( self, o ): return evalop( '__le__', self.value, o.value )
+        def __ge__( self, o ): return evalop( '__ge__', self.value, o.value )
+        def __eq__( self, o ): return evalop( '__eq__', self.value, o.value )
+        def __ne__( self, o ): return evalop( '__ne__', self.value, o.value )
+        __hash__ = None
+    spec = { '__lt__': lambda d: d > 2, '__gt__': lambda d: -d > 2, '__le__': lambda d: not ( -d > 2 ), '__ge__': lambda d: not ( d > 2 ),
+             '__eq__': lambda d: abs( d ) <= 2, '__ne__': lambda d: abs( d ) > 2 }
+    why = { '__lt__': '__lt__ must be self.value + _epsilon < rhs.value (values within _epsilon render equal and must compare equal)',
+            '__gt__': '__gt__ must be self.value - _epsilon > rhs.value' }
+    for name in OPS:
         fn = src.get( 'timestamp.' + name )
-        e = ret( fn )
-        if any( pmatch( e, p_ ) for p_ in pats ):
-            res.ok( src, fn, '%s = %s' % ( name, norm_text( e )))
+        wrong = None
+        for d in ( -3, -2, -1, 0, 1, 2, 3 ):
+            res.cells += 1
+            try:
+                got = evalop( name, 10, 10 + d )
+            except NoFold as exc:
+                wrong = 'rhs - self = %d x epsilon/2: not decided ( %s )' % ( d, exc ); break
+            if got != spec[name]( d ):
+                wrong = 'rhs - self = %d x epsilon/2: %s, specified %s' % ( d, got, spec[name]( d )); break
+        if wrong is None:
+            res.ok( src, fn, '%s = %s: the specified relation on all 7 differences' % ( name, norm_text( ret( fn ))))
         else:
-            res.bad( src, fn, '%s: %s' % ( name, norm_text( e )), 'must be derived from __lt__/__gt__ so all six operators share one resolution' )
-    # eq and ne must not both be defined as the negation of each other
-    if pmatch( ret( src.get( 'timestamp.__eq__' )), 'not self.__ne__( rhs )' ) and pmatch( ret( src.get( 'timestamp.__ne__' )), 'not self.__eq__( rhs )' ):
-        res.bad( src, src.get( 'timestamp.__eq__' ), '__eq__/__ne__', 'defined only in terms of each other' )
+            res.bad( src, fn, '%s: %s' % ( name, norm_text( ret( fn ))), why.get( name, 'must be derived from __lt__/__gt__ so all six operators share one resolution' ) + ' [' + wrong + ']' )
     # rendering uses the same precision
     rnd = src.get( 'timestamp.render' )
     if pfind( rnd, 'self._precision if ms is True else __' ) or pfind( rnd, 'self._precision' ):
@@ -2296,7 +2302,13 @@ def t_render( ctx ):
     # requested digits: default precision, else int( ms ), 0..6
     sd = [ s for s in walk_no_nested( fn ) if isinstance( s, ast.Assign ) and dotted( s.targets[0] ) == SUB ]
     rng = [ a for a in walk_no_nested( fn ) if isinstance( a, ast.Assert ) and ( pmatch( a.test, '0 <= %s <= 6' % SUB ) is not None ) ]
-    if sd and pmatch( sd[0].value, 'self._precision if ms is True else int( ms ) if ms else 0' ) is not None and rng:
+    digits_ok = False
+    if sd:
+        # by value: True -> the class precision, a digit count -> itself, anything falsy -> 0
+        cells_ = [ try_fold( sd[0].value, { 'ms': m_, 'self._precision': 'P', 'self.__class__._precision': 'P', 'timestamp._precision': 'P' }, default='?' )
+                   for m_ in ( True, False, None, 0, 1, 3, 6 ) ]
+        digits_ok = cells_ == [ 'P', 0, 0, 0, 1, 3, 6 ]
+    if sd and digits_ok and rng:
         res.ok( src, sd[0], 'digits = _precision by default, int( ms ) when given, 0 when falsy; asserted within 0..6 (microsecond resolution of datetime)' )
     else:
         res.bad( src, sd[0] if sd else fn, 'requested digits', 'digits must default to _precision and be limited to 0..6' )
@@ -2314,9 +2326,17 @@ def t_render( ctx ):
     nd = src.get( 'timestamp.number_from_datetime' )
     r = [ x for x in nd.body if isinstance( x, ast.Return ) ]
     fut = any( isinstance( n, ast.ImportFrom ) and n.module == '__future__' and any( a.name == 'division' for a in n.names ) for n in src.tree.body )
-    if r and ( pmatch( r[0].value, 'calendar.timegm( dt.utctimetuple() ) + dt.microsecond / 1000000' ) is not None and fut
-               or pmatch( r[0].value, 'calendar.timegm( dt.utctimetuple() ) + dt.microsecond / 1000000.0' ) is not None
-               or pmatch( r[0].value, 'calendar.timegm( dt.utctimetuple() ) + dt.microsecond / 1e6' ) is not None ):
+    num_ok = False
+    if r:
+        # by value: the seconds are timegm of the UTC tuple, the microseconds are added as a true fraction ( under Python 2 an int literal
+        # divisor needs the module's `from __future__ import division` )
+        DT = nd.args.args[-1].arg
+        v_ = try_fold( r[0].value, { 'calendar.timegm': lambda t: 1000 if t == 'UTC-TUPLE' else 'other', DT + '.utctimetuple': lambda: 'UTC-TUPLE',
+                                     DT + '.timetuple': lambda: 'LOCAL-TUPLE', DT + '.microsecond': 250000 }, default='?' )
+        intdiv = [ b for b in ast.walk( r[0].value ) if isinstance( b, ast.BinOp ) and isinstance( b.op, ast.Div )
+                   and isinstance( try_fold( b.right ), int ) and DT + '.microsecond' in ( dotted( x ) for x in ast.walk( b.left )) ]
+        num_ok = v_ == 1000.25 and ( fut or not intdiv )
+    if num_ok:
         res.ok( src, r[0], 'number = timegm( UTC tuple ) + microsecond / 10**6 (true division)' )
     else:
         res.bad( src, r[0] if r else nd, r[0].value if r else 'return', 'the UNIX value must be timegm of the UTC time tuple plus the microseconds as a true fraction' )
